@@ -14,7 +14,12 @@ Arguments Ok {A} a. Arguments OutOfFuel {A}.
 
 (* what getPostgresDataTypes can tell apart: strings.ToLower(Primitive.String()) is "string", "int", "date" or
    anything else (float, decimal, bool, ..., "no_primitive" for sets/sequences) *)
-Inductive prim := PString | PInt | PDate | POther.
+Inductive prim := PString | PInt | PDate | POther
+  | PRef1.   (* the column's type is a type reference that is NOT <table>.<column> (path of fewer than two elements:
+                `price <: Money` for an alias / !type / enum / union of the application, a type of another application,
+                an undefined name).  Primitive.String() of such a type is NO_PRIMITIVE: in the source the model
+                transliterates (Gen: ref_guard = GuardForeignKey) it takes the primitive branch everywhere, like POther;
+                the constructor keeps the kind visible in the cases and in the refutation of the former treatment. *)
 
 Record col := C {
   cname : name;
@@ -155,3 +160,13 @@ Inductive pkadd_kind := PkAlways | PkNonEmpty | PkUnknown.
    the primitive's type / bigint (what the creation script records) *)
 Inductive autovt_kind := AutoVtPlain | AutoVtBigint | AutoVtUnknown.
 Record dcfg := DCfg { cfg_refref : refref_kind; cfg_pkadd : pkadd_kind; cfg_autovt : autovt_kind }.
+
+(* which columns take the "reference" branch of findTableDepth / writeCreateSQLForAColumn / writeModifySQLForAColumn:
+   every type reference (what the repository had: a one-element reference then reads visitedAttributes["."] = "" as its
+   type and blocks the depth fix-point) / only those foreignKeyTarget accepts (path of length >= 2) *)
+Inductive guard_kind := GuardTypeRef | GuardForeignKey | GuardUnknown.
+(* writeCreateSQLForATable, the body text after addConstraints: TrimSuffix(",") / TrimSuffix("\n") then TrimSuffix(",") *)
+Inductive trim_kind := TrimComma | TrimNlComma | TrimUnknown.
+(* writeModifySQLForATable, "attribute added": TrimSpace + drop the last byte of the column text, and of the first
+   foreign-key constraint: drop the last byte + TrimSpace *)
+Inductive post_kind := PostTrimDropLast | PostUnknown.
